@@ -20,16 +20,27 @@ CONSTANTS
   Offsets,    \* set of non-zero integers used by += -= + -
   MaxProg,    \* length of iterator programs
   MaxN,       \* iterator programs only on views with N <= MaxN
-  Merge       \* TRUE: programs reaching the same positions are merged (edge coverage);
+  Merge,      \* TRUE: programs reaching the same positions are merged (edge coverage);
               \* FALSE: every program is kept (path coverage)
+  TwinOps     \* names of the view operations that may derive a TWIN view of the same dimensionality
+              \* from the view ({} = no twin).  Iterators of the view and of its twin have one C++ type,
+              \* so a register can be re-seated from one range into the other by assignment
 
+OffsetsOne == {-1, 1}
 OffsetsSmall == {-2, -1, 1, 2}
 OffsetsWide == {-3, -2, -1, 1, 2, 3}
 
-VARIABLES kind, pos, prog
-ivars == <<root, abs, impl, path, kind, pos, prog>>
+VARIABLES kind, pos, prog,
+          twin,   \* the operation deriving the twin view from abs, or NoTwin
+          rng     \* for each register the range it points into: 0 = the view, 1 = its twin
+ivars == <<root, abs, impl, path, kind, pos, prog, twin, rng>>
 
-N == IF Dim(abs) = 0 THEN 0 ELSE IF kind = "outer" THEN abs.shape[1] ELSE NumElements(abs)
+NoTwin == [op |-> "none", args |-> <<>>]
+TwinView == IF twin.op = "none" THEN abs ELSE ApplyF(abs, twin)
+ViewOf(g) == IF g = 0 THEN abs ELSE TwinView
+NOf(v) == IF Dim(v) = 0 THEN 0 ELSE IF kind = "outer" THEN v.shape[1] ELSE NumElements(v)
+N == NOf(abs)
+NR(r) == NOf(ViewOf(rng[r]))
 
 IOp(name, r, s, n) == [op |-> name, r |-> r, s |-> s, n |-> n]
 
@@ -38,11 +49,20 @@ IterOps ==
   \cup {IOp(nm, r, 0, n) : nm \in {"addeq", "subeq"}, r \in 1..2, n \in Offsets}
   \cup {IOp(nm, r, s, n) : nm \in {"plus", "minus"}, r \in 1..2, s \in 1..2, n \in Offsets}
   \cup {IOp(nm, r, s, 0) : nm \in {"assign", "copy"}, r \in 1..2, s \in {1, 2} }
+  \cup {IOp(nm, r, 0, 0) : nm \in {"tbegin", "tend"}, r \in 1..2}     \* x = twin.begin() / x = twin.end()
+
+(* the range register o.r points into after the operation *)
+NewRng(o) ==
+  CASE o.op \in {"begin", "end"}   -> 0
+    [] o.op \in {"tbegin", "tend"} -> 1
+    [] o.op \in {"plus", "minus", "assign", "copy"} -> rng[o.s]
+    [] OTHER -> rng[o.r]
 
 (* position of register o.r after the operation *)
 NewPos(o) ==
-  CASE o.op = "begin"   -> 0
+  CASE o.op \in {"begin", "tbegin"} -> 0
     [] o.op = "end"     -> N
+    [] o.op = "tend"    -> NOf(TwinView)
     [] o.op \in {"inc", "postinc"} -> pos[o.r] + 1
     [] o.op \in {"dec", "postdec"} -> pos[o.r] - 1
     [] o.op = "addeq"   -> pos[o.r] + o.n
@@ -51,15 +71,30 @@ NewPos(o) ==
     [] o.op = "minus"   -> pos[o.s] - o.n
     [] o.op \in {"assign", "copy"} -> pos[o.s]
 
-IterPre(o) == NewPos(o) >= 0 /\ NewPos(o) <= N /\ (o.op \in {"assign", "copy"} => o.r # o.s)
+IterPre(o) ==
+  /\ NewPos(o) >= 0 /\ NewPos(o) <= NOf(ViewOf(NewRng(o)))
+  /\ (o.op \in {"assign", "copy"} => o.r # o.s)
+  /\ (o.op \in {"tbegin", "tend"} => twin.op # "none")
 
-IInit == Init /\ kind \in Kinds /\ pos = <<0, 0>> /\ prog = <<>>
+IInit == Init /\ kind \in Kinds /\ pos = <<0, 0>> /\ prog = <<>> /\ twin = NoTwin /\ rng = <<0, 0>>
 
 ViewStep ==
-  /\ prog = <<>>
+  /\ prog = <<>> /\ twin = NoTwin
   /\ Len(path) < MaxDepth
   /\ \E o \in Candidates(abs) : Step(o)
-  /\ UNCHANGED <<kind, pos, prog>>
+  /\ UNCHANGED <<kind, pos, prog, twin, rng>>
+
+(* the view is complete: pick a twin of the same dimensionality (another view of the same root) *)
+TwinStep ==
+  /\ prog = <<>> /\ twin = NoTwin
+  /\ Dim(abs) >= 1 /\ N <= MaxN
+  /\ \E o \in Candidates(abs) :
+       /\ o.op \in TwinOps
+       /\ ApplyPre(abs, o)
+       /\ Dim(ApplyF(abs, o)) = Dim(abs)
+       /\ NOf(ApplyF(abs, o)) <= MaxN
+       /\ twin' = o
+  /\ UNCHANGED <<root, abs, impl, path, kind, pos, prog, rng>>
 
 IterStep ==
   /\ Dim(abs) >= 1
@@ -68,30 +103,35 @@ IterStep ==
   /\ \E o \in IterOps :
        /\ IterPre(o)
        /\ pos' = [pos EXCEPT ![o.r] = NewPos(o)]
+       /\ rng' = [rng EXCEPT ![o.r] = NewRng(o)]
        /\ prog' = Append(prog, o)
-  /\ UNCHANGED <<root, abs, impl, path, kind>>
+  /\ UNCHANGED <<root, abs, impl, path, kind, twin>>
 
-INext == ViewStep \/ IterStep
+INext == ViewStep \/ TwinStep \/ IterStep
 ISpec == IInit /\ [][INext]_ivars
 
-IVW  == IF Merge THEN <<root, abs, kind, pos, IF prog = <<>> THEN 0 ELSE 1>> ELSE <<root, abs, kind, pos, prog>>
+IVW  == IF Merge THEN <<root, abs, kind, pos, twin, rng, IF prog = <<>> THEN 0 ELSE 1>> ELSE <<root, abs, kind, pos, twin, prog>>
 
 -----------------------------------------------------------------------------
 (* the item designated by position p: the cells of the sub-view / the element *)
-Item(p) ==
+ItemOf(v, p) ==
   IF kind = "outer"
-  THEN IF Dim(abs) = 1 THEN <<abs.cell[<<p>>]>>
-       ELSE ElementsOf(IndexF(abs, abs.first[1] + p))
-  ELSE <<abs.cell[FromLinear(p, abs.shape)]>>
+  THEN IF Dim(v) = 1 THEN <<v.cell[<<p>>]>>
+       ELSE ElementsOf(IndexF(v, v.first[1] + p))
+  ELSE <<v.cell[FromLinear(p, v.shape)]>>
+Item(p) == ItemOf(abs, p)
 
-ItemAt(p) == IF p < N THEN Item(p) ELSE <<>>
+ItemAtOf(v, p) == IF p < NOf(v) THEN ItemOf(v, p) ELSE <<>>
+FirstsOf(v) == [q \in 1..NOf(v) |-> IF ItemOf(v, q - 1) = <<>> THEN -1 ELSE ItemOf(v, q - 1)[1]]
 
-PosOK == \A r \in 1..2 : pos[r] \in 0..N
+PosOK == \A r \in 1..2 : pos[r] \in 0..NR(r)
 
 IExpect ==
   [ root |-> root, path |-> path, kind |-> kind, prog |-> prog, pos |-> pos, n |-> N,
-    item |-> <<ItemAt(pos[1]), ItemAt(pos[2])>>,
-    firsts |-> [q \in 1..N |-> IF Item(q - 1) = <<>> THEN -1 ELSE Item(q - 1)[1]] ]
+    twin |-> twin, rng |-> rng, ns |-> <<NR(1), NR(2)>>,
+    item |-> <<ItemAtOf(ViewOf(rng[1]), pos[1]), ItemAtOf(ViewOf(rng[2]), pos[2])>>,
+    firsts |-> FirstsOf(abs),
+    firsts_r |-> <<FirstsOf(ViewOf(rng[1])), FirstsOf(ViewOf(rng[2]))>> ]
 
 IEmitC == (~Emit) \/ Dim(abs) = 0 \/ N > MaxN \/ PrintT(ToJson(IExpect))
 =============================================================================
